@@ -318,6 +318,9 @@ func randomScenario(ctx *common.Ctx, name string, model bool, ntx int) scenario 
 		n := 1 + g.rng.Pick(4)
 		t.ReadOnly = g.rng.Chance(0.12)
 		t.Abort = !t.ReadOnly && g.rng.Chance(0.15)
+		if t.Abort {
+			t.AbortErr = g.rng.Pick(len(abortErrNames))
+		}
 		for len(t.Ops) < n {
 			// arguments are chosen against the state the transaction has reached so far
 			save := g.o
@@ -386,7 +389,7 @@ func batchScenario(n int, variant int) scenario {
 		{Ops: []op{{K: "CreateMailbox", N1: 1, N2: 1, N3: 100, Flags: []string{}}, {K: "CreateMailbox", N1: 2, N2: 2, N3: 101, Flags: []string{}}}},
 		{Ops: []op{{K: "CreateMessages", Reqs: reqs}, {K: "TotalMessageCount"}}},
 		{Ops: []op{{K: "AddMessages", Box: 1, Pairs: pairsOf(all)}, {K: "GetCountAndUID", Box: 1}}},
-		{Ops: []op{{K: "SetDeleted", Box: 1, Ids: all, B: true}, {K: "AddFlag", Ids: all, Flag: "z"}}, Abort: true},
+		{Ops: []op{{K: "SetDeleted", Box: 1, Ids: all, B: true}, {K: "AddFlag", Ids: all, Flag: "z"}}, Abort: true, AbortErr: 2},
 		{Ops: []op{{K: "SetDeleted", Box: 1, Ids: all, B: true}, {K: "AddFlag", Ids: all, Flag: "z"}, {K: "GetMessagesFlags", Ids: all}, {K: "FilterContains", Box: 1, Ids: all}}},
 		{Ops: []op{{K: "SetFlags", Ids: all, Flags: []string{"a", "B"}}, {K: "Snapshot", Box: 1}}},
 		{Ops: []op{{K: "RemoveFlag", Ids: all, Flag: "b"}, {K: "AddMessages", Box: 2, Pairs: pairsOf(all)}}},
@@ -434,7 +437,7 @@ func abortScenario(n int) scenario {
 	}
 	sc.Txs = append(sc.Txs, txn{Ops: []op{{K: "CreateMailbox", N1: 1, N2: 1, N3: 5, Flags: []string{}}}})
 	for p := 0; p <= len(ops); p++ {
-		sc.Txs = append(sc.Txs, txn{Ops: append([]op{}, ops[:p]...), Abort: true})
+		sc.Txs = append(sc.Txs, txn{Ops: append([]op{}, ops[:p]...), Abort: true, AbortErr: p % len(abortErrNames)})
 	}
 	sc.Txs = append(sc.Txs, txn{Ops: append([]op{}, ops...)})
 	return sc
